@@ -507,7 +507,7 @@ class Exec:
                      z3.ULE(self.src_base, bvv(1 << 62, U))]
         self.stats = dict(queries=0, cached=0, paths=0, steps=0, solver_s=0.0, max_depth=0, infeasible=0)
         self.step_limit = step_limit
-        self.call_step_limit = 4000 + 1500 * (nbytes if isinstance(nbytes, int) else 8)
+        self.call_step_limit = 6000 + 150 * (nbytes if isinstance(nbytes, int) else 8)
         self.fn_seen = set()
         self.builtins_used = set()
         self.trace_hooks = []          # [(regex, callback(ex, fnrec, args))]
